@@ -23,7 +23,7 @@ import (
 
 const (
 	childAS       = 256 << 20 // address space the child may add to what it has at start (RLIMIT_AS)
-	childMaxStack = 16 << 20 // a decoder that needs more than 16 MiB of stack for a < 1 MiB input is looping
+	childMaxStack = 16 << 20  // a decoder that needs more than 16 MiB of stack for a < 1 MiB input is looping
 	childTimeout  = 30 * time.Second
 )
 
